@@ -10,7 +10,7 @@ package notifyf
 
 //@ func (*ReportInfo).ResetDefault
 //@   requires st != nil
-//@   modifies *st
+//@   pure
 //@   safety [C05]
 //
 //@ func (*ReportInfo).ReadFrom
@@ -21,6 +21,48 @@ package notifyf
 //@   allocates
 //@   ensures [C05] readBuf.buf.i >= p0
 //@   ensures [C05] validR(readBuf)
+//@   let src = readBuf.buf.src
+//@   let d0 = readBuf.depth
+//@   let q0 = readBuf.buf.i
+//@   let k1 = decIntK(src, q0, 1, true, 4, d0)
+//@   let q1 = (k1 == 0 ? decIntP(src, q0, 1, d0) : seekP(src, q0, 1, d0))
+//@   let ok1 = (k1 == 0 || (k1 == 1 && (seekK(src, q0, 1, d0) == 2 || (seekK(src, q0, 1, d0) == 1 && seekCanon(src, q0, 1, d0)))))
+//@   let k2 = decStrK(src, q1, 2, true, d0)
+//@   let q2 = (k2 == 0 ? decStrP(src, q1, 2, d0) : seekP(src, q1, 2, d0))
+//@   let ok2 = ok1 && (k2 == 0 || (k2 == 1 && (seekK(src, q1, 2, d0) == 2 || (seekK(src, q1, 2, d0) == 1 && seekCanon(src, q1, 2, d0)))))
+//@   let k3 = decStrK(src, q2, 3, true, d0)
+//@   let q3 = (k3 == 0 ? decStrP(src, q2, 3, d0) : seekP(src, q2, 3, d0))
+//@   let ok3 = ok2 && (k3 == 0 || (k3 == 1 && (seekK(src, q2, 3, d0) == 2 || (seekK(src, q2, 3, d0) == 1 && seekCanon(src, q2, 3, d0)))))
+//@   let k4 = decStrK(src, q3, 4, true, d0)
+//@   let q4 = (k4 == 0 ? decStrP(src, q3, 4, d0) : seekP(src, q3, 4, d0))
+//@   let ok4 = ok3 && (k4 == 0 || (k4 == 1 && (seekK(src, q3, 4, d0) == 2 || (seekK(src, q3, 4, d0) == 1 && seekCanon(src, q3, 4, d0)))))
+//@   let k5 = decStrK(src, q4, 5, true, d0)
+//@   let q5 = (k5 == 0 ? decStrP(src, q4, 5, d0) : seekP(src, q4, 5, d0))
+//@   let ok5 = ok4 && (k5 == 0 || (k5 == 1 && (seekK(src, q4, 5, d0) == 2 || (seekK(src, q4, 5, d0) == 1 && seekCanon(src, q4, 5, d0)))))
+//@   let k6 = decStrK(src, q5, 6, true, d0)
+//@   let q6 = (k6 == 0 ? decStrP(src, q5, 6, d0) : seekP(src, q5, 6, d0))
+//@   let ok6 = ok5 && (k6 == 0 || (k6 == 1 && (seekK(src, q5, 6, d0) == 2 || (seekK(src, q5, 6, d0) == 1 && seekCanon(src, q5, 6, d0)))))
+//@   let k7 = decStrK(src, q6, 7, false, d0)
+//@   let q7 = (k7 == 0 ? decStrP(src, q6, 7, d0) : seekP(src, q6, 7, d0))
+//@   let ok7 = ok6 && (k7 == 0 || (k7 == 1 && (seekK(src, q6, 7, d0) == 2 || (seekK(src, q6, 7, d0) == 1 && seekCanon(src, q6, 7, d0)))))
+//@   let k8 = decIntK(src, q7, 8, false, 4, d0)
+//@   let q8 = (k8 == 0 ? decIntP(src, q7, 8, d0) : seekP(src, q7, 8, d0))
+//@   let ok8 = ok7 && (k8 == 0 || (k8 == 1 && (seekK(src, q7, 8, d0) == 2 || (seekK(src, q7, 8, d0) == 1 && seekCanon(src, q7, 8, d0)))))
+//@   let k9 = decStrK(src, q8, 9, false, d0)
+//@   let q9 = (k9 == 0 ? decStrP(src, q8, 9, d0) : seekP(src, q8, 9, d0))
+//@   let ok9 = ok8 && (k9 == 0 || (k9 == 1 && (seekK(src, q8, 9, d0) == 2 || (seekK(src, q8, 9, d0) == 1 && seekCanon(src, q8, 9, d0)))))
+//@   opaque [C04] *
+//@   perreturn
+//@   ensures [C04] (ok1 && err == nil) ==> st.EType == (k1 == 0 ? decIntV(src, q0, 1, d0) : old(st.EType))
+//@   ensures [C04] (ok2 && err == nil) ==> st.SApp == (k2 == 0 ? decStrV(src, q1, 2, d0) : old(st.SApp))
+//@   ensures [C04] (ok3 && err == nil) ==> st.SSet == (k3 == 0 ? decStrV(src, q2, 3, d0) : old(st.SSet))
+//@   ensures [C04] (ok4 && err == nil) ==> st.SContainer == (k4 == 0 ? decStrV(src, q3, 4, d0) : old(st.SContainer))
+//@   ensures [C04] (ok5 && err == nil) ==> st.SServer == (k5 == 0 ? decStrV(src, q4, 5, d0) : old(st.SServer))
+//@   ensures [C04] (ok6 && err == nil) ==> st.SMessage == (k6 == 0 ? decStrV(src, q5, 6, d0) : old(st.SMessage))
+//@   ensures [C04] (ok7 && err == nil) ==> st.SThreadId == (k7 == 0 ? decStrV(src, q6, 7, d0) : old(st.SThreadId))
+//@   ensures [C04] (ok8 && err == nil) ==> st.ELevel == (k8 == 0 ? decIntV(src, q7, 8, d0) : old(st.ELevel))
+//@   ensures [C04] (ok9 && err == nil) ==> st.SNodeName == (k9 == 0 ? decStrV(src, q8, 9, d0) : old(st.SNodeName))
+//@   ensures [C04] ok9 ==> (err == nil && readBuf.buf.i == q9)
 //@   safety [C05]
 //
 //@ func (*ReportInfo).ReadBlock
